@@ -5,6 +5,7 @@ import Driver.Gss
 import Driver.Pac
 import Driver.Replay
 import Driver.Net
+import Driver.Conf
 
 open Driver
 
@@ -20,6 +21,7 @@ def dispatch (line : String) : String :=
       else if op.startsWith "pac." then Pac.handle op args
       else if op.startsWith "rc." then Replay.handle op args
       else if op.startsWith "net." then Net.handle op args
+      else if op.startsWith "conf." then Conf.handle op args
       else none
     match r with
     | some s => s
